@@ -1,19 +1,9 @@
 import DroopProofs.InvInit
+import DroopModel.Oracles
 
 /-! # Last mile: the Boolean predicate the driver evaluates is implied by the invariant (C02 upper half, non-negativity) -/
 namespace Droop
 variable {α : Type} [CommRing α] [LinearOrder α] [IsStrictOrderedRing α] (A : Arith α)
-
-/-- the executable check of one snapshot, as the harness runs it on model and implementation records -/
-def snapUpperB (nb : Nat) (sn : Snap α) : Bool :=
-  !(A.ltRaw (A.ofInt nb) (A.add (A.sum ((sn.cs.filter (fun e => e.2.1 != "W")).map (fun e => e.2.2.1))) sn.x1))
-  && (sn.cs.filter (fun e => e.2.1 != "W")).all (fun e => !(A.ltRaw e.2.2.1 A.zero))
-  && !(A.ltRaw sn.x1 A.zero)
-
-def recUpperB (nb : Nat) (acts : List (Act α)) : Bool :=
-  acts.all (fun a => match a.snap with
-                     | some sn => snapUpperB A nb sn
-                     | none => true)
 
 /-- what the Boolean check needs from the arithmetic beyond `LawfulArith` -/
 structure LawfulRaw (A : Arith α) : Prop where
